@@ -7,8 +7,8 @@ import CalVerif.Model.RangeIter
     request : `hist <op>;<op>;…`   op = `N,sr,sc,er,ec` | `E` | `F,r,c,v,r,c,v,…` | `S,row,col,v` | `R,sr,sc,er,ec` | `X,i,j,v` (`range[(i, j)] = v`, relative)
     reply   : `<dump>;<dump>;…`    dump = `panic` (state unchanged) or the observable state
 
-    request : `iter <pat> <op>;<op>;…`   pat = string of `f` (`next`) / `b` (`next_back`)
-    reply   : `C=<trace> L=<len> U=<trace> R=<trace>` — the three iterators of the FINAL state of the history
+    request : `iter <pat> <op>;<op>;…`   pat = string of `f` (`next`) / `b` (`next_back`) / `n` `N` (`nth(1)`, `nth(2)`) / `m` `M` (`nth_back(1)`, `nth_back(2)`)
+    reply   : `C=<trace> L=<len> U=<trace> R=<trace> LR=<rows left>` — the three iterators of the FINAL state of the history
               consumed by that pattern; trace item = `f<r>:<c>:<v>` / `b…` / `f-` (None); rows as `f[v.v.v]` -/
 
 open Range
@@ -30,7 +30,8 @@ def dump (r : Rng Nat) : String :=
   let prow := [sr - 1, sr, er, min (er + 1) 4294967295]
   let pcol := [sc - 1, sc, ec, min (ec + 1) 4294967295]
   let gv := ",".intercalate (prow.flatMap fun a => pcol.map fun b => showOpt (getValue r a b))
-  let rel := [(0, 0), (h - 1, w - 1), (h, 0), (0, w)]
+  let rel := [(0, 0), (h - 1, w - 1), (h, 0), (0, w), (18446744073709551615, 0), (0, 18446744073709551615),
+    (9223372036854775808, 1), (4611686018427387904, 3)]
   let g := ",".intercalate (rel.map fun p => showOpt (get r p.1 p.2))
   let ix := ",".intercalate (rel.map fun p => match index r p.1 p.2 with | .ok v => toString v | _ => "!")
   let showRowRes (x : Res (List Nat)) := match x with
@@ -104,12 +105,18 @@ def runIter (pat : String) (ops : List String) : String :=
   match finalState ops with
   | none => "bad-op"
   | some r =>
-    let p := pat.toList.map (· == 'f')
+    let acts : List Act := pat.toList.map fun ch =>
+      match ch with
+      | 'f' => Act.next | 'b' => Act.nextBack | 'n' => Act.nth 1 | 'N' => Act.nth 2
+      | 'm' => Act.nthBack 1 | _ => Act.nthBack 2
+    let ex := acts.flatMap Act.expand
+    let p := ex.map (·.1)
+    let flags := ex.map (·.2)
     let c := CellIt.consume CellIt.next CellIt.nextBack p (cellsIter r)
     let u := CellIt.consume CellIt.nextUsed CellIt.nextBackUsed p (cellsIter r)
     let w := rowsConsume p (rows r)
-    let tr (t : List (Bool × Option (Nat × Nat × Nat))) := ",".intercalate (t.map fun x => showItem x.1 x.2)
-    s!"C={tr c.1} L={c.2.len} U={tr u.1} R={",".intercalate (w.1.map fun x => showRow x.1 x.2)}"
+    let tr (t : List (Bool × Option (Nat × Nat × Nat))) := ",".intercalate ((visible flags t).map fun x => showItem x.1 x.2)
+    s!"C={tr c.1} L={c.2.len} U={tr u.1} R={",".intercalate ((visible flags w.1).map fun x => showRow x.1 x.2)} LR={w.2.length}"
 
 def handle (line : String) : String :=
   match Wire.words line with
